@@ -125,6 +125,21 @@ Proof.
   apply sumn_zero_ext. intros a _. unfold mv. rewrite sumn_zero_ext; [ring|]. intros; ring.
 Qed.
 
+(* homogeneity under a change of the length unit (x -> s x): the weights w_p|J_p| are multiplied by
+   a = s^dim and every entry of B (a physical gradient) by b = 1/s, so K_e is multiplied by a*b^2 =
+   s^(dim-2); with b = 1 (B = N) the mass matrix is multiplied by s^dim.  Every statement above
+   (symmetry, PSD, kernel, totals) is therefore unit-independent. *)
+Definition scale_pt (a b : R) (p : gp) : gp := {| gw := a * gw p; gB := fun r c => b * gB p r c |}.
+Theorem C02_Ke_homogeneous : forall ns C pts a b i j,
+  Ke ns C (map (scale_pt a b) pts) i j = a * b * b * Ke ns C pts i j.
+Proof.
+  intros ns C pts a b i j. unfold Ke. induction pts as [|p pts IH]; simpl; [ring|].
+  rewrite IH. unfold Kpt at 1 3. simpl.
+  rewrite (sumn_ext ns _ (fun r => b * b * sumn ns (fun c => gB p r i * C r c * gB p c j))).
+  - rewrite sumn_scal. ring.
+  - intros r _. rewrite <- sumn_scal. apply sumn_ext. intros c _. ring.
+Qed.
+
 (* non-vacuity of the skew hypothesis: the plane rotation generator *)
 Example skew_hyp_satisfiable : exists A : nat -> nat -> R, (forall m n, A m n = - A n m) /\ A 0%nat 1%nat = 1.
 Proof.
@@ -141,3 +156,4 @@ Print Assumptions C02_rigid_zero_strain_2D.
 Print Assumptions C02_rigid_zero_strain_3D.
 Print Assumptions C02_constant_zero_gradient.
 Print Assumptions C02_zero_strain_in_kernel.
+Print Assumptions C02_Ke_homogeneous.
